@@ -196,6 +196,21 @@ def _cls_pus(case):
     return out
 
 
+def _refused_operations_on_other_packets(tcm, tmm):
+    for mk in (lambda: tcm.PusTc(service=17, subservice=1, apid=1, source_id=0x10000), lambda: tcm.PusTc(service=256, subservice=1, apid=1),
+               lambda: tmm.PusTm(service=17, subservice=2, timestamp=b"", destination_id=0x10000), lambda: tmm.PusTm(service=17, subservice=2, timestamp=b"", space_time_ref=0x100),
+               lambda: tmm.PusTm(service=17, subservice=2, timestamp=b"", source_data="not octets")):
+        try:
+            bad = mk()
+            for op in (bad.calc_crc, bad.to_space_packet, bad.pack):
+                try:
+                    op()
+                except Exception:  # noqa: BLE001 - the refusal itself is not under test here
+                    pass
+        except Exception:  # noqa: BLE001
+            pass
+
+
 def check_pus(case):
     _, tcm, check_pus_crc = c02._m()
     _, tmm, _, _ = c03._m()
@@ -226,6 +241,20 @@ def check_pus(case):
         want = RP.pus_tm(p["apid"], p["seq"], p["service"], p["subservice"], p["msg_counter"], p["dest_id"], p["time_ref"], stamp, src, ver=p["ver"])
         ts = len(stamp)
         dec = [("PusTm.unpack", lambda b: tmm.PusTm.unpack(b, ts))]
+    # the other routes that compute the trailer (calc_crc + pack without recalculation, the space-packet view), on a fresh object
+    # each, right after operations on OTHER packets were refused: the first computation after a refusal is the one at risk
+    if case["kind"] == "tc":
+        mk_same = lambda: c02.build_tc(tcm, p, app)  # noqa: E731
+    else:
+        mk_same = lambda: c03.build_tm(tmm, p, stamp, src)  # noqa: E731
+    for route in ("view", "calc"):
+        _refused_operations_on_other_packets(tcm, tmm)
+        o_r = mk_same()
+        if route == "view":
+            eq(devs, "after_refused.space_packet_view", bytes(o_r.to_space_packet().pack()), want)
+        else:
+            o_r.calc_crc()
+            eq(devs, "after_refused.calc_crc_then_pack_without_recalc", bytes(o_r.pack(recalc_crc=False)), want)
     eq(devs, "clean.bytes", raw, want)
     eq(devs, "clean.trailer", raw[-2:], crc_bytes(raw[:-2]), "trailer vs reference CRC of all preceding octets")
     dec[0][1](raw)  # uncorrupted packet must be accepted (an exception here is reported by the engine)
@@ -451,6 +480,74 @@ CLAUSES = [
         weight_by_evals=True,
     ),
 ]
+
+# ---- the first checksum operation of a fresh process ------------------------------------------------------------
+
+FIRST_OPS = ("tc.pack", "tc.calc_crc+pack_without_recalc", "tc.space_packet_view", "tm.pack", "tm.calc_crc+pack_without_recalc", "tm.space_packet_view", "check_pus_crc", "tc.unpack", "tm.unpack",
+             "cfdp.pack", "cfdp.unpack")
+
+_FIRST_OP_CHILD = r"""
+import json
+op = sys.argv[2]
+from spacepackets.ecss.tc import PusTc
+from spacepackets.ecss.tm import PusTm
+from spacepackets.ecss import check_pus_crc
+tc = lambda: PusTc(service=17, subservice=1, apid=0x2A5, app_data=bytes([1, 2, 3]), seq_count=0x1234, source_id=7)
+tm = lambda: PusTm(service=3, subservice=25, timestamp=bytes([9, 8, 7]), source_data=bytes([0xAA, 0x55]), apid=0x155, seq_count=0x2001, message_counter=5, destination_id=9)
+ref_tc, ref_tm, ref_eof = (bytes.fromhex(x) for x in sys.argv[3:6])
+def cfdp_eof():
+    from spacepackets.cfdp import PduConfig, CrcFlag, LargeFileFlag, TransmissionMode
+    from spacepackets.cfdp.pdu import EofPdu
+    from spacepackets.util import ByteFieldU8
+    conf = PduConfig(ByteFieldU8(1), ByteFieldU8(2), ByteFieldU8(3), TransmissionMode.ACKNOWLEDGED, LargeFileFlag.NORMAL, CrcFlag.WITH_CRC)
+    return EofPdu, EofPdu(conf, bytes([1, 2, 3, 4]), 5)
+if op == "tc.pack": out = bytes(tc().pack()).hex()
+elif op == "tc.calc_crc+pack_without_recalc":
+    o = tc(); o.calc_crc(); out = bytes(o.pack(recalc_crc=False)).hex()
+elif op == "tc.space_packet_view": out = bytes(tc().to_space_packet().pack()).hex()
+elif op == "tm.pack": out = bytes(tm().pack()).hex()
+elif op == "tm.calc_crc+pack_without_recalc":
+    o = tm(); o.calc_crc(); out = bytes(o.pack(recalc_crc=False)).hex()
+elif op == "tm.space_packet_view": out = bytes(tm().to_space_packet().pack()).hex()
+elif op == "check_pus_crc": out = [bool(check_pus_crc(ref_tc)), bool(check_pus_crc(ref_tm))]
+elif op == "tc.unpack": out = bytes(PusTc.unpack(ref_tc).pack()).hex()
+elif op == "tm.unpack": out = bytes(PusTm.unpack(ref_tm, 3).pack()).hex()
+elif op == "cfdp.pack": out = bytes(cfdp_eof()[1].pack()).hex()
+elif op == "cfdp.unpack": out = bytes(cfdp_eof()[0].unpack(ref_eof).pack()).hex()
+sys.stdout.write(json.dumps(out))
+"""
+
+
+def enum_first_ops(tier, shard, nshards, rng):
+    for i, op in enumerate(FIRST_OPS):
+        if i % nshards == shard:
+            yield {"op": op}
+
+
+def check_first_op(c):
+    """Whatever checksum-related operation a process performs first gives the reference octets (lazily initialised tables,
+    module-level calculators): one child interpreter per operation."""
+    from ..core import child_python
+    from ..ref import cfdp as RC
+
+    ref_tc = RP.pus_tc(0x2A5, 0x1234, 17, 1, 7, 0b1111, bytes([1, 2, 3]))
+    ref_tm = RP.pus_tm(0x155, 0x2001, 3, 25, 5, 9, 0, bytes([9, 8, 7]), bytes([0xAA, 0x55]))
+    conf = {"crc": 1, "large": 0, "mode": 0, "dir": 0, "segctrl": 0, "idw": 1, "seqw": 1, "src": 1, "dst": 2, "seq": 3}
+    ref_eof = RC.pdu({"kind": "eof", "conf": conf, "cc": 0, "checksum": "01020304", "size": 5, "fault": None})
+    got = child_python(_FIRST_OP_CHILD, args=(c["op"], ref_tc.hex(), ref_tm.hex(), ref_eof.hex()))
+    want = {"check_pus_crc": [True, True]}.get(c["op"], (ref_tc if c["op"].startswith("tc") else ref_tm if c["op"].startswith("tm") else ref_eof).hex())
+    devs = []
+    eq(devs, f"first_operation_of_a_process.{c['op']}", got, want)
+    return devs
+
+
+CLAUSES.append(Clause(
+    id="C04.fresh_interpreter",
+    doc="each checksum-related operation (pack, calc_crc + pack without recalculation, space-packet view, standalone check, decode; TC, TM, CFDP) as the FIRST operation of a fresh "
+        "interpreter gives the reference octets / verdict",
+    kind="enum", enum=enum_first_ops, check=check_first_op, classify=lambda c: [c["op"].split(".")[0]], required=["tc", "tm", "cfdp", "check_pus_crc"], shards={"quick": 4, "thorough": 4},
+    exhaustive_note="the 11 listed first operations, one child interpreter each",
+))
 
 PROPERTY = Property(
     id="C04",
